@@ -60,7 +60,7 @@ type c03Shape struct {
 	Late    bool // the last application middleware and the action are installed only after the application has served requests
 	Swap    bool // the application first serves with as many do-nothing middleware, which Handlers() then replaces by the real ones
 	Info    bool `json:",omitempty"` // handlers that write send an informational status (100+position) instead of 201+position
-	Sig     int  `json:",omitempty"` // >0: handlers that return nothing use, by position, the other handler types (func(http.ResponseWriter, *http.Request), http.HandlerFunc, a reflectively invoked func(Context, *http.Request)), shifted by Sig
+	Sig     int  `json:",omitempty"` // >0: handlers that return nothing use, by position, the other handler types (func(http.ResponseWriter, *http.Request), http.HandlerFunc, a reflectively invoked func(Context, *http.Request), func(Context) error and func() error returning nil), shifted by Sig
 	SwapN   int  `json:",omitempty"` // with Swap: this many stand-in middleware more than real ones are installed first (one Use call each), so that Handlers() replaces a longer stack by a shorter one
 	Hollow  bool `json:",omitempty"` // in every group, a nested group without handlers (holding another route) is opened and closed before the next level / the probed route is registered
 	Multi   bool `json:",omitempty"` // the route is registered through Routes with three method names given as separate leading strings
@@ -161,7 +161,12 @@ func (w *c03World) mk(i int, returnsString bool) flamego.Handler {
 		return func(c flamego.Context) string { return w.body(i, c) }
 	}
 	if w.sig > 0 {
-		switch (i + w.sig) % 4 {
+		switch (i + w.sig) % 6 {
+		case 4:
+			// handlers that return a nil error (nothing to render: the chain goes on as for "returns nothing")
+			return func(c flamego.Context) error { w.body(i, c); return nil }
+		case 5:
+			return func() error { w.body(i, w.cur); return nil }
 		case 1:
 			return func(rw http.ResponseWriter, req *http.Request) { w.body(i, w.cur) }
 		case 2:
@@ -588,7 +593,7 @@ func c03Shapes(maxN int, thorough bool) []c03Shape {
 						out = append(out, c03Shape{M: m, G: g, R: r, Action: act, Swap: true, SwapN: 2})
 					}
 					if thorough || n <= 3 {
-						out = append(out, c03Shape{M: m, G: g, R: r, Action: act, Sig: 1}, c03Shape{M: m, G: g, R: r, Action: act, Sig: 2})
+						out = append(out, c03Shape{M: m, G: g, R: r, Action: act, Sig: 1}, c03Shape{M: m, G: g, R: r, Action: act, Sig: 2}, c03Shape{M: m, G: g, R: r, Action: act, Sig: 4})
 						out = append(out, c03Shape{M: m, G: g, R: r, Action: act, Info: true})
 						out = append(out, c03Shape{M: m, G: g, R: r, Action: act, Wrap: true})
 						if r >= 1 {
@@ -615,7 +620,7 @@ func c03Shapes(maxN int, thorough bool) []c03Shape {
 }
 
 func c03Run(r *core.Run) {
-	r.Rule = "engine E: every handler program = stack shape (app middleware / nested group handlers / route handlers / optional action; handler types func(Context), func(Context) string, func(ResponseWriter, *Request), http.HandlerFunc, func(Context, *Request)) x one behaviour per position (action string over {Next, write, cancel, install a derived context, Next guarded by the handler's own recover} + terminal {return nothing, return \"\", return a string, panic}); each program is one request on a real Flame; stack variants: installed late, swapped by Handlers(), flat groups, AutoHead, informational statuses, a HandlerWrapper, Routes with several method strings, handler-less nested groups, closed nested groups with a handler of their own, refused Use/Get/Action calls (non-callable argument, recovered) around the accepted ones, a sibling route registered on a prefix of the probed route's handler slice and served before every probe; the recorded event trace must be accepted by the trace automaton (chain order, at most once, none skipped, onion nesting, automatic advance iff nothing written and not cancelled, Next() completeness) and the response must equal what the trace implies; non-trivial = program with at least one Next() and at least one write/cancel/panic/returned string"
+	r.Rule = "engine E: every handler program = stack shape (app middleware / nested group handlers / route handlers / optional action; handler types func(Context), func(Context) string, func(ResponseWriter, *Request), http.HandlerFunc, func(Context, *Request), func(Context) error and func() error returning nil) x one behaviour per position (action string over {Next, write, cancel, install a derived context, Next guarded by the handler's own recover} + terminal {return nothing, return \"\", return a string, panic}); each program is one request on a real Flame; stack variants: installed late, swapped by Handlers(), flat groups, AutoHead, informational statuses, a HandlerWrapper, Routes with several method strings, handler-less nested groups, closed nested groups with a handler of their own, refused Use/Get/Action calls (non-callable argument, recovered) around the accepted ones, a sibling route registered on a prefix of the probed route's handler slice and served before every probe; the recorded event trace must be accepted by the trace automaton (chain order, at most once, none skipped, onion nesting, automatic advance iff nothing written and not cancelled, Next() completeness) and the response must equal what the trace implies; non-trivial = program with at least one Next() and at least one write/cancel/panic/returned string"
 	r.Assumptions = []string{"an explicit Next() after a write or after a cancel may start the next handler or not (the statement leaves it open); everything else is exact", "no Recovery in the stack (C15 covers it)"}
 	type plan struct {
 		minN, maxN int
